@@ -956,15 +956,15 @@ class Manager:
         try:
             while self.running or len(self._queue):
                 self.tick()
-            # Fading out, handle remaining work from stop event
-            for _ in range(3):
-                self.tick()
         except Exception as exc:
             stderr.write(f'Unhandled ERROR: {exc}\n')
             stderr.write(format_exc())
         finally:
+            # Fading out, handle remaining work from stop event (also when
+            # the loop is left by SystemExit carrying an exit code)
             with contextlib.suppress(Exception):
-                self.tick()
+                for _ in range(4):
+                    self.tick()
 
         self.root._executing_thread = None
         self.__thread = None
